@@ -138,7 +138,7 @@ class C05(runner.Check):
     os.mkdir(img_root)
     factory = self._factory(plan)
     world = O.World(cfg, backend='sqlfile', policy_factory=factory, dbdir=live_dir)
-    rec = crash.CrashRecorder(world.sv.datastore._engine, live_dir, img_root)  # pylint: disable=protected-access
+    rec = crash.CrashRecorder(crash.find_engine(world.sv.datastore), live_dir, img_root)
     n = len(plan['ops'])
     armed_from = {'all': 0, 'last3': max(0, n - 3), 'last1': max(0, n - 1)}[plan.get('armed', 'last3')]
     states = [state_of(world.sv)]
@@ -311,7 +311,7 @@ class C05(runner.Check):
     cfg = plan['cfg']
     dbdir = w2.dbdir
     img_root = tempfile.mkdtemp(prefix='second-', dir=os.path.dirname(os.path.dirname(dbdir)))
-    rec = crash.CrashRecorder(w2.sv.datastore._engine, dbdir, img_root)  # pylint: disable=protected-access
+    rec = crash.CrashRecorder(crash.find_engine(w2.sv.datastore), dbdir, img_root)
     main = O.study_name(0, 0)
     c = {'kind': 'SuggestTrials', 'study': main, 'n': 2, 'worker': 1}
     a = state_of(w2.sv)
